@@ -1,7 +1,7 @@
 (* C20 — the par command's exit status reflects the outcome.
    Model: Model/CLI.v (cmd/par/main.go: Go flag parsing as used there, command and extension dispatch,
    result-to-status mapping) over the library models. *)
-From Gopar Require Import Model.Base Model.CRC Model.GoPath Model.FS Model.Par2 Model.Par1 Model.CLI.
+From Gopar Require Import Model.Base Model.CRC Model.GoPath Model.FS Model.Par2 Model.Par1 Model.CLI Proofs.CLIFacts.
 Open Scope N_scope.
 
 (* the status mapping of verify: needed and possible -> 1, needed and impossible -> 2, otherwise 0 *)
@@ -34,3 +34,49 @@ Theorem C20_usage : forall md5 cwd st,
   fst (cli_run md5 cwd [[99]; [120; 46; 112; 97; 114; 50]] st) = 3.
 Proof. intros. repeat split; reflexivity. Qed.
 Print Assumptions C20_usage.
+
+(* EXIT 0 MEANS SUCCESS, verify: for every command line of the verify shape (any global flags, any
+   letter case of v/verify, any -a), every current directory and every archive state: status 0 implies
+   that every protected file is present with its recorded length and hashes - PAR2 and PAR1 *)
+Theorem C20_verify2_zero_means_intact : forall md5 cwd args par fs st',
+  cli_run md5 cwd args (io_init fs []) = (0, st') -> cli_is_verify2 args par ->
+  exists ds st1, load_all md5 par (io_init fs []) = (Ok ds, st1) /\
+    Forall (fun info => exists data, fs_lookup fs (file_path par (di_name info)) = Some data /\
+              md5 data = di_hash info /\ Par2.hash16k md5 data = di_h16 info /\ N.of_nat (length data) = di_len info)
+           (d_rec (ds_dec ds)).
+Proof. exact cli_verify2_zero_intact. Qed.
+Print Assumptions C20_verify2_zero_means_intact.
+
+Theorem C20_verify1_zero_means_intact : forall md5 cwd args par all fs st',
+  cli_run md5 cwd args (io_init fs []) = (0, st') -> cli_is_verify1 args par all ->
+  exists s st1, p1_load md5 par (io_init fs []) = (Ok s, st1) /\
+    Forall (fun e => exists data, fs_lookup fs (join2 (dir par) (e_name e)) = Some data /\
+                      md5 data = e_hash e /\ Par1.hash16k md5 data = e_h16 e) (s_saved s).
+Proof. exact cli_verify1_zero_intact. Qed.
+Print Assumptions C20_verify1_zero_means_intact.
+
+(* the status of every verify command line is 0 / 1 / 2 by needed / possible, of every repair command
+   line the mapping of the library result - PAR2 and PAR1 alike *)
+Theorem C20_verify2_status : forall md5 cwd args par st c st1,
+  cli_is_verify2 args par -> par2_verify md5 par st = (Ok c, st1) ->
+  fst (cli_run md5 cwd args st) = (if repair_needed c then (if repair_possible c then 1 else 2) else 0).
+Proof. exact cli_verify2_codes. Qed.
+Print Assumptions C20_verify2_status.
+
+Theorem C20_repair2_status : forall md5 cwd args par dbl st r rp st1,
+  cli_is_repair2 args par dbl -> par2_repair md5 par dbl st = ((r, rp), st1) ->
+  fst (cli_run md5 cwd args st) = exit_of_repair r.
+Proof. exact cli_repair2_codes. Qed.
+Print Assumptions C20_repair2_status.
+
+Theorem C20_repair1_status : forall md5 cwd args par dbl st r rp st1,
+  cli_is_repair1 args par dbl -> par1_repair md5 par dbl st = ((r, rp), st1) ->
+  fst (cli_run md5 cwd args st) = exit_of_repair r.
+Proof. exact cli_repair1_codes. Qed.
+Print Assumptions C20_repair1_status.
+
+(* every malformed command line (global flags that do not parse, no or unknown command word, a command
+   without its arguments or with flags that do not parse) exits 3 *)
+Theorem C20_usage_status : forall md5 cwd args st, cli_is_usage_error args -> fst (cli_run md5 cwd args st) = 3.
+Proof. exact cli_usage. Qed.
+Print Assumptions C20_usage_status.
